@@ -36,6 +36,11 @@ package ovmf
 //@   sweep[C08]
 //@   alloc 36 * len(firmware) + 4096
 //@   ensures[C08] err == nil ==> 12 * len(result0) <= len(firmware)
+// C04 (the firmware's declared metadata ranges, in declared order): section k of the result is the k-th 12-byte
+// descriptor (address, length, kind; little-endian) behind the 16-byte header of the metadata block that the GUID
+// table's offset entry locates, counted from the end of the image.
+//@   ensures[C04,internal] err == nil ==> forall(k, 0 <= k && k < len(result0) ==> result0[k].Address == le32(firmware, len(firmware) - metadataOffset.Offset + 16 + 12 * k) && result0[k].Length == le32(firmware, len(firmware) - metadataOffset.Offset + 20 + 12 * k) && result0[k].Kind == le32(firmware, len(firmware) - metadataOffset.Offset + 24 + 12 * k))
+//@   loop 1 invariant[C04] forall(k, 0 <= k && k < len(metadataSections) ==> metadataSections[k].Address == le32(firmware, len(firmware) - metadataOffset.Offset + 16 + 12 * k) && metadataSections[k].Length == le32(firmware, len(firmware) - metadataOffset.Offset + 20 + 12 * k) && metadataSections[k].Kind == le32(firmware, len(firmware) - metadataOffset.Offset + 24 + 12 * k))
 //@   loop 1 invariant 0 <= it && it <= sevMetadata.Sections && alloc <= 36 * it && (ref(metadataSections) == 0 || fresh(metadataSections)) && len(metadataSections) == it
 
 //@ func (*SevData).ExtractFromFirmware
